@@ -33,7 +33,7 @@ class Job:
 
     def __init__(self, name, props, engine, harness, sources=(), overlays=None, defines=(),
                  enforce=None, replace=(), unwind=None, unwindset=(), cbmc_flags=(),
-                 timeout=900, mem_gb=8, tiers=('quick', 'thorough'), functions=(),
+                 timeout=900, mem_gb=6, tiers=('quick', 'thorough'), functions=(),
                  bound=None, replay=False, fallback=None, config='slack', min_obl=1,
                  entry='harness', checks=None, slice_tag=None, nondet_static=False,
                  note='', assumptions=(), object_bits=None, instrument=(), weight=1,
@@ -216,7 +216,34 @@ def parse_cbmc_json(path):
 
 
 import threading
-CBMC_SEM = threading.BoundedSemaphore(int(os.environ.get('VERIF_JOBS', os.cpu_count() or 4)))
+
+
+class ResourceGate:
+    """Admission control for solver processes: at most `slots` at a time and at most `mem` GB of
+    declared address-space limits in flight (the kernel OOM killer took down 8 GB cbmc processes
+    when 16 of them ran at once on the 62 GB sandbox)."""
+
+    def __init__(self, slots, mem):
+        self.slots, self.mem = slots, mem
+        self.cv = threading.Condition()
+
+    def acquire(self, gb):
+        gb = min(gb, self.mem)
+        with self.cv:
+            while self.slots < 1 or self.mem < gb:
+                self.cv.wait()
+            self.slots -= 1
+            self.mem -= gb
+        return gb
+
+    def release(self, gb):
+        with self.cv:
+            self.slots += 1
+            self.mem += gb
+            self.cv.notify_all()
+
+
+GATE = ResourceGate(int(os.environ.get('VERIF_JOBS', os.cpu_count() or 4)), float(os.environ.get('VERIF_MEM_GB', '44')))
 
 
 def ob_class(name, cls):
@@ -444,8 +471,11 @@ def run_job1(job, tier='quick', want_trace=False, keep=None, select=None):
             if want_trace:
                 cmd += ['--trace']
             cmd += [cur]
-            with CBMC_SEM:
+            got = GATE.acquire(job.mem_gb)
+            try:
                 rc, so, se, dt, st = run_tool(cmd, scratch, job.timeout, job.mem_gb, out_path=out)
+            finally:
+                GATE.release(got)
             if st == 'timeout':
                 return ('timeout', 'cbmc timed out after %ds (group %d: %s)' % (job.timeout, gi_, (names or ['all'])[:3]), dt, None)
             if want_trace:
